@@ -1,0 +1,398 @@
+// Copyright 2025 The Go Authors. All rights reserved.
+// Use of this source code is governed by a BSD-style
+// license that can be found in the LICENSE file.
+
+//go:build verif
+
+package bpf
+
+// Contracts, spec functions and lemma harnesses for the deductive verifier in /verif (govc).
+// This file is compiled only with -tags verif; it adds no behaviour to the package.
+
+// ---------------------------------------------------------------------------
+// Assemble / Disassemble are inverse (property C48).
+//
+// lemmaAsmDisasm_T (D1): for every value a of instruction type T that Assemble accepts,
+// Disassemble(Assemble(a)) is a again.
+// lemmaDisasmAsm_T (D2): for every raw instruction that disassembles to type T,
+// assembling the result reproduces the raw instruction exactly.
+// One lemma per type, so that a failure names the instruction type.
+//
+// Disassemble and the assembling helpers are loop-free: the lemmas run over their real bodies.
+//
+//@ func (RawInstruction).Disassemble(ri) (ins)
+//@   inline
+//@ func jumpToRaw(test, operand, k, skipTrue, skipFalse) (raw, err)
+//@   inline
+//@ func assembleLoad(dst, loadSize, mode, k) (raw, err)
+//@   inline
+
+//@ lemma
+//@ ensures ok
+func lemmaAsmDisasm_LoadConstant(a LoadConstant) (ok bool) {
+	raw, err := a.Assemble()
+	if err != nil {
+		return true
+	}
+	return raw.Disassemble() == Instruction(a)
+}
+
+//@ lemma
+//@ ensures ok
+func lemmaDisasmAsm_LoadConstant(ri RawInstruction) (ok bool) {
+	v, is := ri.Disassemble().(LoadConstant)
+	if !is {
+		return true
+	}
+	out, err := v.Assemble()
+	return err == nil && out == ri
+}
+
+//@ lemma
+//@ ensures ok
+func lemmaAsmDisasm_LoadScratch(a LoadScratch) (ok bool) {
+	raw, err := a.Assemble()
+	if err != nil {
+		return true
+	}
+	return raw.Disassemble() == Instruction(a)
+}
+
+//@ lemma
+//@ ensures ok
+func lemmaDisasmAsm_LoadScratch(ri RawInstruction) (ok bool) {
+	v, is := ri.Disassemble().(LoadScratch)
+	if !is {
+		return true
+	}
+	out, err := v.Assemble()
+	return err == nil && out == ri
+}
+
+//@ lemma
+//@ ensures ok
+func lemmaAsmDisasm_LoadAbsolute(a LoadAbsolute) (ok bool) {
+	raw, err := a.Assemble()
+	if err != nil {
+		return true
+	}
+	return raw.Disassemble() == Instruction(a)
+}
+
+//@ lemma
+//@ ensures ok
+func lemmaDisasmAsm_LoadAbsolute(ri RawInstruction) (ok bool) {
+	v, is := ri.Disassemble().(LoadAbsolute)
+	if !is {
+		return true
+	}
+	out, err := v.Assemble()
+	return err == nil && out == ri
+}
+
+//@ lemma
+//@ ensures ok
+func lemmaAsmDisasm_LoadIndirect(a LoadIndirect) (ok bool) {
+	raw, err := a.Assemble()
+	if err != nil {
+		return true
+	}
+	return raw.Disassemble() == Instruction(a)
+}
+
+//@ lemma
+//@ ensures ok
+func lemmaDisasmAsm_LoadIndirect(ri RawInstruction) (ok bool) {
+	v, is := ri.Disassemble().(LoadIndirect)
+	if !is {
+		return true
+	}
+	out, err := v.Assemble()
+	return err == nil && out == ri
+}
+
+//@ lemma
+//@ ensures ok
+func lemmaAsmDisasm_LoadMemShift(a LoadMemShift) (ok bool) {
+	raw, err := a.Assemble()
+	if err != nil {
+		return true
+	}
+	return raw.Disassemble() == Instruction(a)
+}
+
+//@ lemma
+//@ ensures ok
+func lemmaDisasmAsm_LoadMemShift(ri RawInstruction) (ok bool) {
+	v, is := ri.Disassemble().(LoadMemShift)
+	if !is {
+		return true
+	}
+	out, err := v.Assemble()
+	return err == nil && out == ri
+}
+
+//@ lemma
+//@ ensures ok
+func lemmaAsmDisasm_LoadExtension(a LoadExtension) (ok bool) {
+	raw, err := a.Assemble()
+	if err != nil {
+		return true
+	}
+	return raw.Disassemble() == Instruction(a)
+}
+
+//@ lemma
+//@ ensures ok
+func lemmaDisasmAsm_LoadExtension(ri RawInstruction) (ok bool) {
+	v, is := ri.Disassemble().(LoadExtension)
+	if !is {
+		return true
+	}
+	out, err := v.Assemble()
+	return err == nil && out == ri
+}
+
+//@ lemma
+//@ ensures ok
+func lemmaAsmDisasm_StoreScratch(a StoreScratch) (ok bool) {
+	raw, err := a.Assemble()
+	if err != nil {
+		return true
+	}
+	return raw.Disassemble() == Instruction(a)
+}
+
+//@ lemma
+//@ ensures ok
+func lemmaDisasmAsm_StoreScratch(ri RawInstruction) (ok bool) {
+	v, is := ri.Disassemble().(StoreScratch)
+	if !is {
+		return true
+	}
+	out, err := v.Assemble()
+	return err == nil && out == ri
+}
+
+//@ lemma
+//@ ensures ok
+func lemmaAsmDisasm_ALUOpConstant(a ALUOpConstant) (ok bool) {
+	raw, err := a.Assemble()
+	if err != nil {
+		return true
+	}
+	return raw.Disassemble() == Instruction(a)
+}
+
+//@ lemma
+//@ ensures ok
+func lemmaDisasmAsm_ALUOpConstant(ri RawInstruction) (ok bool) {
+	v, is := ri.Disassemble().(ALUOpConstant)
+	if !is {
+		return true
+	}
+	out, err := v.Assemble()
+	return err == nil && out == ri
+}
+
+//@ lemma
+//@ ensures ok
+func lemmaAsmDisasm_ALUOpX(a ALUOpX) (ok bool) {
+	raw, err := a.Assemble()
+	if err != nil {
+		return true
+	}
+	return raw.Disassemble() == Instruction(a)
+}
+
+//@ lemma
+//@ ensures ok
+func lemmaDisasmAsm_ALUOpX(ri RawInstruction) (ok bool) {
+	v, is := ri.Disassemble().(ALUOpX)
+	if !is {
+		return true
+	}
+	out, err := v.Assemble()
+	return err == nil && out == ri
+}
+
+//@ lemma
+//@ ensures ok
+func lemmaAsmDisasm_NegateA(a NegateA) (ok bool) {
+	raw, err := a.Assemble()
+	if err != nil {
+		return true
+	}
+	return raw.Disassemble() == Instruction(a)
+}
+
+//@ lemma
+//@ ensures ok
+func lemmaDisasmAsm_NegateA(ri RawInstruction) (ok bool) {
+	v, is := ri.Disassemble().(NegateA)
+	if !is {
+		return true
+	}
+	out, err := v.Assemble()
+	return err == nil && out == ri
+}
+
+//@ lemma
+//@ ensures ok
+func lemmaAsmDisasm_Jump(a Jump) (ok bool) {
+	raw, err := a.Assemble()
+	if err != nil {
+		return true
+	}
+	return raw.Disassemble() == Instruction(a)
+}
+
+//@ lemma
+//@ ensures ok
+func lemmaDisasmAsm_Jump(ri RawInstruction) (ok bool) {
+	v, is := ri.Disassemble().(Jump)
+	if !is {
+		return true
+	}
+	out, err := v.Assemble()
+	return err == nil && out == ri
+}
+
+//@ lemma
+//@ ensures ok
+func lemmaAsmDisasm_JumpIf(a JumpIf) (ok bool) {
+	raw, err := a.Assemble()
+	if err != nil {
+		return true
+	}
+	return raw.Disassemble() == Instruction(a)
+}
+
+//@ lemma
+//@ ensures ok
+func lemmaDisasmAsm_JumpIf(ri RawInstruction) (ok bool) {
+	v, is := ri.Disassemble().(JumpIf)
+	if !is {
+		return true
+	}
+	out, err := v.Assemble()
+	return err == nil && out == ri
+}
+
+//@ lemma
+//@ ensures ok
+func lemmaAsmDisasm_JumpIfX(a JumpIfX) (ok bool) {
+	raw, err := a.Assemble()
+	if err != nil {
+		return true
+	}
+	return raw.Disassemble() == Instruction(a)
+}
+
+//@ lemma
+//@ ensures ok
+func lemmaDisasmAsm_JumpIfX(ri RawInstruction) (ok bool) {
+	v, is := ri.Disassemble().(JumpIfX)
+	if !is {
+		return true
+	}
+	out, err := v.Assemble()
+	return err == nil && out == ri
+}
+
+//@ lemma
+//@ ensures ok
+func lemmaAsmDisasm_RetA(a RetA) (ok bool) {
+	raw, err := a.Assemble()
+	if err != nil {
+		return true
+	}
+	return raw.Disassemble() == Instruction(a)
+}
+
+//@ lemma
+//@ ensures ok
+func lemmaDisasmAsm_RetA(ri RawInstruction) (ok bool) {
+	v, is := ri.Disassemble().(RetA)
+	if !is {
+		return true
+	}
+	out, err := v.Assemble()
+	return err == nil && out == ri
+}
+
+//@ lemma
+//@ ensures ok
+func lemmaAsmDisasm_RetConstant(a RetConstant) (ok bool) {
+	raw, err := a.Assemble()
+	if err != nil {
+		return true
+	}
+	return raw.Disassemble() == Instruction(a)
+}
+
+//@ lemma
+//@ ensures ok
+func lemmaDisasmAsm_RetConstant(ri RawInstruction) (ok bool) {
+	v, is := ri.Disassemble().(RetConstant)
+	if !is {
+		return true
+	}
+	out, err := v.Assemble()
+	return err == nil && out == ri
+}
+
+//@ lemma
+//@ ensures ok
+func lemmaAsmDisasm_TXA(a TXA) (ok bool) {
+	raw, err := a.Assemble()
+	if err != nil {
+		return true
+	}
+	return raw.Disassemble() == Instruction(a)
+}
+
+//@ lemma
+//@ ensures ok
+func lemmaDisasmAsm_TXA(ri RawInstruction) (ok bool) {
+	v, is := ri.Disassemble().(TXA)
+	if !is {
+		return true
+	}
+	out, err := v.Assemble()
+	return err == nil && out == ri
+}
+
+//@ lemma
+//@ ensures ok
+func lemmaAsmDisasm_TAX(a TAX) (ok bool) {
+	raw, err := a.Assemble()
+	if err != nil {
+		return true
+	}
+	return raw.Disassemble() == Instruction(a)
+}
+
+//@ lemma
+//@ ensures ok
+func lemmaDisasmAsm_TAX(ri RawInstruction) (ok bool) {
+	v, is := ri.Disassemble().(TAX)
+	if !is {
+		return true
+	}
+	out, err := v.Assemble()
+	return err == nil && out == ri
+}
+
+// lemmaDisasmTotal: Disassemble never panics ("switch is exhaustive on the bit pattern") and
+// returns either the raw instruction itself or one of the typed instructions.
+//
+//@ lemma
+//@ ensures ok
+func lemmaDisasmTotal(ri RawInstruction) (ok bool) {
+	ins := ri.Disassemble()
+	if r, isRaw := ins.(RawInstruction); isRaw {
+		return r == ri
+	}
+	return ins != nil
+}
